@@ -38,6 +38,8 @@ impl FeoxStore {
         let new_size = self.calculate_record_size(old_record.key.len(), value.len());
 
         let key_vec = new_record.key.clone();
+        #[cfg(feoxdb_verif)]
+        crate::verif::sched("upd_guard");
 
         let old_record_arc = match self.hash_table.entry(key_vec.clone()) {
             scc::hash_map::Entry::Occupied(mut entry) => {
@@ -75,12 +77,16 @@ impl FeoxStore {
             }
         };
 
+        #[cfg(feoxdb_verif)]
+        crate::verif::sched("upd_post");
         if !self.memory_only {
             if self.enable_caching {
                 if let Some(ref cache) = self.cache {
                     cache.remove_for_record(&key_vec, &old_record_arc);
                 }
             }
+            #[cfg(feoxdb_verif)]
+            crate::verif::sched("upd_enq");
 
             if let Some(ref wb) = self.write_buffer {
                 wb.add_replacement(new_record, old_record_arc)?;
@@ -117,6 +123,8 @@ impl FeoxStore {
         let new_size = new_record.calculate_size();
 
         let key_vec = new_record.key.clone();
+        #[cfg(feoxdb_verif)]
+        crate::verif::sched("upd_guard");
 
         let old_record_arc = match self.hash_table.entry(key_vec.clone()) {
             scc::hash_map::Entry::Occupied(mut entry) => {
@@ -154,12 +162,16 @@ impl FeoxStore {
             }
         };
 
+        #[cfg(feoxdb_verif)]
+        crate::verif::sched("upd_post");
         if !self.memory_only {
             if self.enable_caching {
                 if let Some(ref cache) = self.cache {
                     cache.remove_for_record(&key_vec, &old_record_arc);
                 }
             }
+            #[cfg(feoxdb_verif)]
+            crate::verif::sched("upd_enq");
 
             if let Some(ref wb) = self.write_buffer {
                 wb.add_replacement(new_record, old_record_arc)?;
@@ -228,6 +240,8 @@ impl FeoxStore {
         expected: &Arc<Record>,
         now: u64,
     ) -> Result<bool> {
+        #[cfg(feoxdb_verif)]
+        crate::verif::sched("lazy_guard");
         let retired = match self.hash_table.entry(key.to_vec()) {
             scc::hash_map::Entry::Occupied(entry) => {
                 let record = entry.get();
